@@ -181,6 +181,38 @@ func cfgStores(c *Ctx, r *Report, rule string, durations, funcs bool, hooks ...b
 				r.ok(rule, id, fmt.Sprintf("%s receives the value the caller gave to the option function (%s)", fname, fv.Name()), st.pos, false)
 				continue
 			}
+			// the same for an option written as a method of a value type: the client is a parameter of
+			// the storing function and the stored value is (a conversion / field of) its receiver or
+			// another parameter
+			if fa, ok := st.instr.Addr.(*ssa.FieldAddr); ok {
+				if _, baseIsParam := fa.X.(*ssa.Parameter); baseIsParam && len(cf) == 0 {
+					v := st.val
+					for depth := 0; depth < 6; depth++ {
+						switch x := v.(type) {
+						case *ssa.Convert:
+							v = x.X
+							continue
+						case *ssa.ChangeType:
+							v = x.X
+							continue
+						case *ssa.UnOp:
+							v = x.X
+							continue
+						case *ssa.Field:
+							v = x.X
+							continue
+						case *ssa.FieldAddr:
+							v = x.X
+							continue
+						}
+						break
+					}
+					if p, isParam := v.(*ssa.Parameter); isParam && p != fa.X {
+						r.ok(rule, id, fmt.Sprintf("%s receives the value the caller gave to the option (%s)", fname, p.Name()), st.pos, false)
+						continue
+					}
+				}
+			}
 			storeInstr := storeAt(st)
 			state := fr.blockIn[storeInstr.Block().Index]
 			if os.Getenv("MBDBG") != "" {
